@@ -49,10 +49,11 @@ for _m, _ts in (("bw", ("u8", "u16", "u32", "u64", "u128", "i128")), ("cw", ("u8
     for _t in _ts:
         reg("u_ser::vec_%s_output_%s" % (_m, _t), unwind=6, unwindset=_SAME, family="U", transitions=2 ** 32, timeout_s=(900, 1800),
             bounds="Vec<Output<%s>> of symbolic length 0..3, all field values, 2 trailing bytes" % _t, functions=_SERF[1:2] + _SERF[6:7])
-for _n, _u in (("cw_image", 140), ("cw_image_lm", 140), ("cw_image_u128", 170), ("cw_image_u8", 140)):
-    reg("a_ser::" + _n, unwind=8, unwindset=[("a_ser::" + _n, _u), ("memcmp", _u)], family="A", timeout_s=(900, 1800), mem_gb=12,
-        bounds="one concrete 4-slot char-wise image; 2 symbolic trailing bytes",
-        functions=["CharwiseDoubleArrayAhoCorasick::{serialize,deserialize_unchecked,eq}"])
+for _n in ("bw_image_0", "bw_image_1", "cw_image_0", "cw_image_1"):
+    reg("a_img::" + _n, unwind=6, unwindset=[("memcmp", 24)], family="A", timeout_s=(900, 1800), mem_gb=16, transitions=2 ** 32,
+        bounds="whole images whose vectors hold %s element(s); all field values, match kinds 0..2, 2 symbolic trailing bytes" % _n[-1],
+        functions=["DoubleArrayAhoCorasick::{serialize,deserialize_unchecked}" if _n.startswith("bw") else "CharwiseDoubleArrayAhoCorasick::{serialize,deserialize_unchecked}",
+                   "CodeMapper::{serialize_to_vec,deserialize_from_slice}"])
 
 # ---- I family (inductive iterator steps over arbitrary small tables) -------------------------
 _IF_BW = ["bytewise::iter::{FindIterator,FindOverlappingIterator,FindOverlappingNoSuffixIterator,LestmostFindIterator}::next",
@@ -72,15 +73,15 @@ for _v, _f in (("i_bw", _IF_BW), ("i_cw", _IF_CW)):
 
 # ---- S-lazy / U-val ---------------------------------------------------------------------------
 for _n in ("bw_find", "bw_overlapping", "bw_no_suffix", "cw_find", "cw_overlapping", "cw_no_suffix"):
-    reg("s_lazy::" + _n, unwind=6, family="S", states=4, transitions=16, mem_gb=12, timeout_s=(1500, 3600), cost=4 * 10 ** 6,
+    reg("s_lazy::" + _n, unwind=6, family="S", states=4, transitions=16, mem_gb=24, timeout_s=(1500, 3600), cost=4 * 10 ** 6,
         bounds="all 4-slot tables under Inv; haystack <= 2 bytes (char-wise: <= 2 arbitrary chars); every next() call up to the final None; "
                "source with arbitrary valid size_hint lower bound",
         functions=(_IF_BW if _n.startswith("bw") else _IF_CW) + ["find_iter_from_iter", "find_overlapping_iter_from_iter", "find_overlapping_no_suffix_iter_from_iter"])
-for _v in ("bw", "cw"):
-    for _t in ("u8", "u16", "u32", "u64", "u128", "i8", "i16", "i32", "i64", "i128", "usize", "isize", "empty"):
-        reg("u_val::%s_%s" % (_v, _t), unwind=5, family="U", states=2, transitions=2 ** 16, timeout_s=(900, 1800),
-            bounds="all values of the type; all haystacks <= 2 labels; every search method of the variant",
-            functions=(_IF_BW if _v == "bw" else _IF_CW))
+U_VAL_NAMES = ['bw_u8', 'bw_u16', 'bw_u32', 'bw_u64', 'bw_u128', 'bw_i8', 'bw_i16', 'bw_i32', 'bw_i64', 'bw_i128', 'bw_usize', 'bw_isize', 'bw_empty', 'bw_u8_find', 'bw_u8_nosuf', 'bw_u8_lm', 'bw_u8_lf', 'bw_u128_find', 'bw_u128_nosuf', 'bw_u128_lm', 'bw_u128_lf', 'bw_empty_find', 'bw_empty_nosuf', 'bw_empty_lm', 'bw_empty_lf', 'cw_u8', 'cw_u16', 'cw_u32', 'cw_u64', 'cw_u128', 'cw_i8', 'cw_i16', 'cw_i32', 'cw_i64', 'cw_i128', 'cw_usize', 'cw_isize', 'cw_empty', 'cw_u8_find', 'cw_u8_nosuf', 'cw_u8_lm', 'cw_u8_lf', 'cw_u128_find', 'cw_u128_nosuf', 'cw_u128_lm', 'cw_u128_lf', 'cw_empty_find', 'cw_empty_nosuf', 'cw_empty_lm', 'cw_empty_lf']
+for _n in U_VAL_NAMES:
+    reg("u_val::" + _n, unwind=5, family="U", states=2, transitions=2 ** 16, timeout_s=(900, 1800),
+        bounds="all values of the type; all haystacks <= 2 labels; one search method of one variant per harness",
+        functions=(_IF_BW if _n.startswith("bw") else _IF_CW))
 
 DEPS = {"s_lazy": ["i_bw", "i_cw"]}
 
